@@ -17,6 +17,7 @@ import IocProofs.Lemmas.ValueBinder
 import IocProofs.Lemmas.ValueKeys
 import IocProofs.Lemmas.SemStages
 import IocProofs.Lemmas.SemUnmarshall
+import IocProofs.Lemmas.SemBinder
 namespace Ioc.C17
 open Ioc Ioc.Tag Ioc.Value
 
@@ -509,5 +510,58 @@ example : (unmarshallS ⟨true, some ["2006"], some ["json"], fun _ => none, fun
       ⟨some ⟨["duration", "time:2006"], "json"⟩, [⟨["duration", "time:2006"], "json"⟩], false⟩) := by decide
 
 end unmarshall
+
+/-! ### configure/binder/viper.go, REGENERATED (interpretation Ioc.SemBinder: configuration values live in a heap — maps and
+    lists are objects a caller could write to; viper's `AllSettings` / `Get` / `Set` / `MergeConfig` are parameters) -/
+section binder
+open Ioc.Go Ioc.Sem
+
+/-- Get hands out what viper holds under the path (all settings for the empty path) THROUGH cloneValue, on every path -/
+theorem C17_code_binder_Get (b : VB) (path : String) (h : Heap) :
+    run (bgPrims b) Progs.binder_Get [.str path] h = some (b.clone (if path = "" then b.all else b.get path) h) :=
+  binderGet_sem b path h
+
+/-- cloneValue, level by level (the recursive call is the parameter `rec`; the range over a map is interpreted for EVERY order
+    in which the entries may be enumerated): a non-nil map of either kind / a non-nil list yields a NEW object that holds,
+    under the same keys / at the same positions, what the recursive call returns for each value; typed nil maps and lists and
+    every other value are returned as they are, and nothing is allocated for them -/
+theorem C17_code_cloneValue (keq : Go.Val → Go.Val → Bool) (rec : Go.Val → Heap → Go.Val × Heap) (i : Nat) (h : Heap) :
+    (∀ es, h[i]? = some (.mapS (some es)) →
+      run (cvPrims keq rec) Progs.binder_cloneValue [.ref i 90] h =
+        some (.ref h.length 90, cloneEntries keq rec h.length es (h ++ [.mapS (some [])]))) ∧
+    (∀ es, h[i]? = some (.mapA (some es)) →
+      run (cvPrims keq rec) Progs.binder_cloneValue [.ref i 90] h =
+        some (.ref h.length 90, cloneEntries keq rec h.length es (h ++ [.mapA (some [])]))) ∧
+    (∀ es, h[i]? = some (.lst (some es)) →
+      run (cvPrims keq rec) Progs.binder_cloneValue [.ref i 90] h =
+        some (.ref h.length 90, cloneItems keq rec h.length 0 es (h ++ [.lst (some (List.replicate es.length .nil))]))) ∧
+    ((h[i]? = some (.mapS none) ∨ h[i]? = some (.mapA none) ∨ h[i]? = some (.lst none)) →
+      run (cvPrims keq rec) Progs.binder_cloneValue [.ref i 90] h = some (.ref i 90, h)) ∧
+    (∀ s, run (cvPrims keq rec) Progs.binder_cloneValue [.str s] h = some (.str s, h)) ∧
+    (∀ n, run (cvPrims keq rec) Progs.binder_cloneValue [.int n] h = some (.int n, h)) := by
+  refine ⟨fun es hi => cloneValue_mapS keq rec i es h hi, fun es hi => cloneValue_mapA keq rec i es h hi,
+    fun es hi => cloneValue_list keq rec i es h hi, ?_, ?_, ?_⟩
+  · intro hn
+    apply cloneValue_asis
+    rcases hn with hn | hn | hn <;> simp [assertMS, assertMA, assertL, hn]
+  · intro s; apply cloneValue_asis; simp [assertMS, assertMA, assertL]
+  · intro n; apply cloneValue_asis; simp [assertMS, assertMA, assertL]
+
+/-- … and the copy never writes to an object that existed before the call: when the recursive call only allocates (leaves the
+    first n objects as they are), so does the whole level — what a caller is handed shares no map or list with the
+    configuration -/
+theorem C17_code_cloneValue_frame (keq : Go.Val → Go.Val → Bool) (rec : Go.Val → Heap → Go.Val × Heap) (n : Nat)
+    (hrec : RecFrame rec n) (h : Heap) (hn : n ≤ h.length) (i : Nat) (hi : i < n) :
+    (∀ es, (cloneEntries keq rec n es h)[i]? = h[i]?) ∧ (∀ es s, (cloneItems keq rec n s es h)[i]? = h[i]?) :=
+  ⟨fun es => cloneEntries_frame keq rec n hrec es h hn i hi, fun es s => cloneItems_frame keq rec n hrec es s h hn i hi⟩
+
+/-- Set is exactly one `Viper.Set(path, val)`; SetConfig exactly one `MergeConfig`, whose error comes back wrapped -/
+theorem C17_code_binder_Set (me : Go.Val → Option String) (w : List VCall) :
+    (∀ path v, run (bsPrims me) Progs.binder_Set [.str path, v] w = some (.tuple [], w ++ [.set path v])) ∧
+    (∀ c, run (bsPrims me) Progs.binder_SetConfig [c] w =
+      some (match me c with | none => .nil | some e => .str ("viper merge config: " ++ e), w ++ [.merge c])) :=
+  ⟨fun path v => binderSet_sem me path v w, fun c => binderSetConfig_sem me c w⟩
+
+end binder
 
 end Ioc.C17
